@@ -463,65 +463,159 @@ def gen_program(rng, n, length, integer_only, allow_custom=True, forced=()):
 
 
 def build_circuit(steps):
-    """the program on the real numqi.sim.Circuit"""
+    """the program on the real numqi.sim.Circuit.  Every gate-creating step remembers the gate object it produced, so that a
+    later `('reuse', k, …)` step can place the *same object* at another index tuple (`append_gate` re-use)."""
     import numqi
     circ = numqi.sim.Circuit()
     registered = set()
     placeholders = {}
+    objs = []
     for st in steps:
         name = st[0]
+        obj = None
         if name in ('X', 'Y', 'Z', 'S', 'H', 'T', 'Swap'):
-            getattr(circ, name)(*st[1])
+            obj = getattr(circ, name)(*st[1])
         elif name in ('cnot', 'cx', 'cy', 'cz'):
-            getattr(circ, name)(st[1][0], st[2][0])
+            obj = getattr(circ, name)(st[1][0], st[2][0])
         elif name == 'toffoli':
-            circ.toffoli(st[1], st[2][0])
+            obj = circ.toffoli(st[1], st[2][0])
         elif name == 'single':
-            circ.single_qubit_gate(st[1], *st[2])
+            obj = circ.single_qubit_gate(st[1], *st[2])
         elif name == 'double':
-            circ.double_qubit_gate(st[1], *st[2])
+            obj = circ.double_qubit_gate(st[1], *st[2])
         elif name == 'triple':
-            circ.triple_qubit_gate(st[1], *st[2])
+            obj = circ.triple_qubit_gate(st[1], *st[2])
         elif name == 'quadruple':
-            circ.quadruple_qubit_gate(st[1], *st[2])
+            obj = circ.quadruple_qubit_gate(st[1], *st[2])
         elif name == 'csingle':
-            circ.controlled_single_qubit_gate(st[1], set(st[2]), st[3][0])
+            obj = circ.controlled_single_qubit_gate(st[1], set(st[2]), st[3][0])
         elif name == 'cdouble':
-            circ.controlled_double_qubit_gate(st[1], set(st[2]), st[3])
+            obj = circ.controlled_double_qubit_gate(st[1], set(st[2]), st[3])
         elif name == 'append_u':
-            circ.append_gate(numqi.sim.Gate('unitary', st[1], name='appended'), st[2])
+            obj = numqi.sim.Gate('unitary', st[1], name='appended')
+            circ.append_gate(obj, st[2])
         elif name == 'append_c':
-            circ.append_gate(numqi.sim.Gate('control', st[1], name='appended'), (list(st[2]), st[3]))
+            obj = numqi.sim.Gate('control', st[1], name='appended')
+            circ.append_gate(obj, (list(st[2]), st[3]))
         elif name in ('myu', 'myc', 'myf'):
             if name not in registered:
                 circ.register_custom_gate(name, dict(myu=_MyUnitary, myc=_MyControl, myf=_MyCustom)[name])
                 registered.add(name)
-            getattr(circ, name)(*st[1:])
+            obj = getattr(circ, name)(*st[1:])
         elif name in ('rx', 'ry', 'rz'):
-            getattr(circ, name)(st[1][0], st[2][0])
+            obj = getattr(circ, name)(st[1][0], st[2][0])
         elif name in ('rxP', 'ryP'):
             key = f'p{len(placeholders)}'
             placeholders[key] = st[2][0]
-            getattr(circ, name[:2])(st[1][0], circ.P[key])
+            obj = getattr(circ, name[:2])(st[1][0], circ.P[key])
         elif name == 'u3':
-            circ.u3(st[1][0], st[2])
+            obj = circ.u3(st[1][0], st[2])
         elif name == 'rzz':
-            circ.rzz(st[1], st[2][0])
+            obj = circ.rzz(st[1], st[2][0])
         elif name in ('crx', 'cry', 'crz'):
-            getattr(circ, name)(st[1][0], st[2][0], st[3][0])
+            obj = getattr(circ, name)(st[1][0], st[2][0], st[3][0])
         elif name == 'cu3':
-            circ.cu3(st[1][0], st[2][0], st[3])
+            obj = circ.cu3(st[1][0], st[2][0], st[3])
         elif name == 'shift':
             circ.shift_qubit_index_(st[1])
         elif name == 'extend':
             circ.extend_circuit(build_circuit(st[1]))
+        elif name == 'extend2':
+            sub = build_circuit(st[1])          # the same block (same gate objects) twice
+            circ.extend_circuit(sub)
+            circ.extend_circuit(sub)
+        elif name == 'reuse':
+            g = objs[st[1]]
+            if g.kind == 'unitary':
+                circ.append_gate(g, st[2])
+            elif g.kind == 'control':
+                circ.append_gate(g, (list(st[2]), st[3]))
+            else:
+                circ.append_gate(g, ())
         elif name == 'measure':
-            circ.measure(st[1], seed=st[2])
+            obj = circ.measure(st[1], seed=st[2])
         else:
             raise RuntimeError('unknown step ' + name)
+        objs.append(obj)
     if placeholders:
         circ.setP(**placeholders)
     return circ
+
+
+def program_semantics(steps):
+    """intended meaning of a step list, resolving re-use of an earlier gate object (same array, new placement) and a block
+    extended twice"""
+    out, per = [], []
+    for st in steps:
+        if st[0] == 'reuse':
+            e = per[st[1]][0]
+            if e[0] == 'u':
+                cur = [('u', e[1], tuple(st[2]), None)]
+            elif e[0] == 'c':
+                cur = [('c', e[1], tuple(st[2]), tuple(st[3]), None)]
+            else:
+                cur = [e]
+        elif st[0] == 'extend2':
+            sub = program_semantics(st[1])
+            cur = sub + sub
+        else:
+            cur = step_semantics(st)
+        per.append(cur)
+        out += cur
+    return out
+
+
+def gen_history(rng, integer_only):
+    """multi-step history over the Circuit API: appends, re-use of one gate object at several placements (unitary, controlled,
+    parametrised), one block extended twice, shifts (+/-) before and after further appends, repeated shifts"""
+    width = int(rng.integers(2, 5))
+    steps, creators = [], []
+    names = [x for x in (NAMES_INT if integer_only else NAMES_INT + NAMES_FLOAT + NAMES_FLOAT) if x != 'myf']
+    def add_gate():
+        st = make_step(rng, width, names[int(rng.integers(0, len(names)))]) or make_step(rng, width, 'X')
+        steps.append(st)
+        creators.append(len(steps) - 1)
+    add_gate()
+    for _ in range(int(rng.integers(3, 9))):
+        r = int(rng.integers(0, 10))
+        if r <= 2:
+            add_gate()
+        elif r <= 5 and creators:
+            k = creators[int(rng.integers(0, len(creators)))]
+            e = step_semantics(steps[k])[0]
+            if e[0] == 'u' and len(e[2]) <= width:
+                steps.append(('reuse', k, pick_targets(rng, width, len(e[2]))))
+            elif e[0] == 'c' and len(e[2]) + len(e[3]) <= width:
+                q = pick_targets(rng, width, len(e[2]) + len(e[3]))
+                steps.append(('reuse', k, q[:len(e[2])], q[len(e[2]):]))
+        elif r <= 7:
+            lo = -program_min_index(program_semantics(steps))
+            hi = 6 - width
+            d = int(rng.integers(lo, hi + 1))
+            if d != 0:
+                steps.append(('shift', d)); width += d
+        elif r == 8:
+            sub = [make_step(rng, width, names[int(rng.integers(0, len(names)))]) or make_step(rng, width, 'X') for _ in range(int(rng.integers(1, 4)))]
+            steps.append(('extend2', sub))
+    if not any(s[0] == 'shift' for s in steps):
+        d = int(rng.integers(1, 7 - width)) if width < 6 else -program_min_index(program_semantics(steps))
+        if d != 0:
+            steps.append(('shift', d)); width += d
+    return steps
+
+
+def index_list_of(circ):
+    out = []
+    for gate, index in circ.gate_index_list:
+        if gate.kind == 'control':
+            out.append(('c', sorted(int(x) for x in index[0]), [int(x) for x in index[1]]))
+        elif gate.kind == 'unitary':
+            out.append(('u', None, [int(x) for x in index]))
+        elif gate.kind == 'measure':
+            out.append(('m', None, [int(x) for x in index]))
+        else:
+            out.append(('x', None, None))
+    return out
 
 
 R_SQRT_HALF = float(1 / np.sqrt(2))
@@ -578,7 +672,7 @@ def step_semantics(st):
     if name == 'shift':
         return [('s', st[1])]
     if name == 'extend':
-        return [x for s2 in st[1] for x in step_semantics(s2)]
+        return program_semantics(st[1])
     raise RuntimeError('unknown step ' + name)
 
 
@@ -652,7 +746,7 @@ def program_min_index(sem):
 def describe(steps):
     out = []
     for st in steps:
-        out.append([st[0]] + [(a.tolist() if isinstance(a, np.ndarray) else (describe(a) if st[0] == 'extend' and isinstance(a, list) else a)) for a in st[1:]])
+        out.append([st[0]] + [(a.tolist() if isinstance(a, np.ndarray) else (describe(a) if st[0] in ('extend', 'extend2') and isinstance(a, list) else a)) for a in st[1:]])
     return out
 
 
@@ -686,6 +780,43 @@ def circuit_cases(ctx, rng):
             sem = step_semantics(('extend', steps)); width = program_width(sem); n = n0
         if n > 6 or width == 0:
             continue
+        cases += program_cases(rng, steps, sem, n, width, it)
+    # multi-step histories: one gate object at several placements, a block extended twice, shifts before/after/repeated
+    nhist = 60 if ctx.quick() else 500
+    for it in range(nhist):
+        steps = gen_history(rng, integer_only=(it % 2 == 0))
+        sem = program_semantics(steps)
+        width = program_width(sem)
+        if width == 0 or width > 6 or program_min_index(sem) < 0:
+            continue
+        cases += program_cases(rng, steps, sem, width, width, ('history', it), with_indices=True)
+    # the same kind='custom' object applied twice (no shift: a custom gate is tied to the register width)
+    for it in range(6 if ctx.quick() else 40):
+        n0 = int(rng.integers(1, 4))
+        steps = [make_step(rng, n0, 'myf'), make_step(rng, n0, 'X'), ('reuse', 0), ('Z', (n0 - 1,)), ('reuse', 0)]
+        sem = program_semantics(steps)
+        cases += program_cases(rng, steps, sem, n0, n0, ('custom-reuse', it), with_indices=True)
+    return cases
+
+
+def intended_index_list(sem):
+    """index part of gate_index_list the program is meant to end with (shifts resolved here, independently of model and code)"""
+    ent = []
+    for x in sem:
+        if x[0] == 's':
+            ent = [(e[0], None if e[1] is None else [q + x[1] for q in e[1]], None if e[2] is None else [q + x[1] for q in e[2]]) for e in ent]
+        elif x[0] == 'u':
+            ent.append(('u', None, [int(q) for q in x[2]]))
+        elif x[0] == 'c':
+            ent.append(('c', sorted(int(q) for q in x[2]), [int(q) for q in x[3]]))
+        else:
+            ent.append(('x', None, None))
+    return ent
+
+
+def program_cases(rng, steps, sem, n, width, it, with_indices=False):
+    cases = []
+    if True:
         is_int = program_is_integer(sem)
         enc = enc_z if is_int else enc_q
         ring = 'Z' if is_int else 'Q'
@@ -704,6 +835,10 @@ def circuit_cases(ctx, rng):
                               (lambda sem=sem, width=width: np.concatenate([[width], oracle_program_matrix(sem, width).reshape(-1)])),
                               approx=not is_int, key='Circuit.to_unitary', ntkey=('unitary', ring, width, kinds, it),
                               replay=dict(fn='Circuit.to_unitary', program=repr(desc))))
+        if with_indices:
+            cases.append(Case(f'C03 indices {ring} {text}', (lambda steps=steps: index_list_of(build_circuit(steps))),
+                              (lambda sem=sem: intended_index_list(sem)), key='Circuit.gate_index_list', ntkey=('indices', kinds, it),
+                              replay=dict(fn='Circuit.gate_index_list', program=repr(desc))))
     return cases
 
 
@@ -862,6 +997,13 @@ def agree(case, model_line):
         return v == model_line
     if model_line in ('error', 'bad-op') or model_line.startswith('error'):
         return False
+    if case.op.split(' ')[1] == 'indices':
+        got = []
+        for e in (model_line.split('|') if model_line else []):
+            t = e.split(':')
+            f = lambda z: [] if z == '-' else [int(q) for q in z.split(';')]
+            got.append(('x', None, None) if t[0] == 'x' else ('c', sorted(f(t[1])), f(t[2])) if t[0] == 'c' else (t[0], None, f(t[1])))
+        return got == v
     if case.op.split(' ')[1] == 'vocab':
         kind, ctrl, targets, arr = v
         t = model_line.split(' ')
@@ -900,7 +1042,7 @@ def correspondence(ctx):
                          'not a property violation by itself - the public routines are compared on every index pattern')
         else:
             v = c.value
-            shown = v if isinstance(v, str) else (repr(v) if isinstance(v, tuple) else (enc_z(v) or repr(np.asarray(v).tolist())))
+            shown = v if isinstance(v, str) else (repr(v) if isinstance(v, (tuple, list)) else (enc_z(v) or repr(np.asarray(v).tolist())))
             ctx.disagree(c.op if len(c.op) < 4000 else c.op[:4000] + '…', m[:2000], shown[:2000])
     for c in cases[:3]:
         ctx.sample({'op': c.op[:200], 'out': (c.value if isinstance(c.value, str) else enc_z(c.value) or '')[:120]})
@@ -922,13 +1064,19 @@ def probe(ctx):
         if isinstance(v, str):
             ctx.fail(c.key + ':raises', f'{c.key} raised on a valid input', c.replay)
             continue
+        if c.key == 'Circuit.gate_index_list':
+            if v != want:
+                ctx.fail(c.key, f'gate_index_list after the history is {v}, intended placements are {want}', dict(c.replay or {}, observed=repr(v), expected=repr(want)))
+            else:
+                ctx.probe_ok(('probe',) + tuple(c.ntkey))
+            continue
         ok = np.array_equal(np.asarray(v).reshape(-1), np.asarray(want).reshape(-1)) if not c.approx else close(v, want)
         if not ok:
             ctx.fail(c.key, f'{c.key} differs from the explicitly embedded operator (np.kron oracle): got {np.asarray(v).reshape(-1)[:6].tolist()}…, '
                              f'expected {np.asarray(want).reshape(-1)[:6].tolist()}…', dict(c.replay or {}, observed=repr(np.asarray(v).tolist()), expected=repr(np.asarray(want).tolist())))
         else:
             ctx.probe_ok(('probe',) + tuple(c.ntkey) if c.ntkey else None)
-        if c.key == 'Circuit.to_unitary' and not isinstance(v, str):
+        if c.key == 'Circuit.to_unitary' and not isinstance(v, str) and np.asarray(v).size == np.asarray(want).size:
             U = np.asarray(v)[1:]
             d = int(round(math.sqrt(U.size)))
             U = U.reshape(d, d)
@@ -1001,8 +1149,10 @@ def _steps_from_desc(desc):
     out = []
     for st in desc:
         name = st[0]
-        if name == 'extend':
-            out.append(('extend', _steps_from_desc(st[1])))
+        if name in ('extend', 'extend2'):
+            out.append((name, _steps_from_desc(st[1])))
+        elif name == 'reuse':
+            out.append(('reuse', st[1]) + tuple(tuple(a) for a in st[2:]))
         elif name in ('single', 'double', 'triple', 'quadruple', 'csingle', 'cdouble', 'append_u', 'append_c', 'myu', 'myc', 'myf'):
             out.append((name, np.array(st[1], dtype=np.complex128)) + tuple(tuple(a) if isinstance(a, (list, tuple)) else a for a in st[2:]))
         else:
@@ -1060,9 +1210,16 @@ def replay(ctx, payload):
         for f in term:
             M = M @ oracle_embed(f[0], f[1:], n)
         want = np.vdot(psi0, M @ psi1).reshape(1)
-    elif fn in ('Circuit.apply_state', 'Circuit.to_unitary'):
+    elif fn in ('Circuit.apply_state', 'Circuit.to_unitary', 'Circuit.gate_index_list'):
         steps = _steps_from_desc(eval(r['program'], {'__builtins__': {}}, {}))
         sem = step_semantics(('extend', steps)); approx = True
+        if fn == 'Circuit.gate_index_list':
+            got = guarded(lambda: index_list_of(build_circuit(steps))); want = intended_index_list(sem)
+            ok = got == want
+            print(f'replay: gate_index_list {"now matches" if ok else "still differs from"} the intended placements: got {got}, expected {want}')
+            if not ok:
+                print(f'VIOLATION property=C03 replay={_replay_path()}')
+            return 0 if ok else 1
         if fn == 'Circuit.apply_state':
             n, psi = r['n'], _arr(r['psi'])
             got = guarded(lambda: build_circuit(steps).apply_state(psi)); want = oracle_program_matrix(sem, n) @ psi
